@@ -367,8 +367,13 @@ def mem_clear(aw=2, dw=3):
     m[ca] <<= pyrtl.MemBlock.EnabledWrite(pyrtl.Const(0, bitwidth=dw), clr & ~we)
     m2 = pyrtl.MemBlock(bitwidth=dw, addrwidth=aw, name='m2', asynchronous=True)
     m2[wa] <<= pyrtl.MemBlock.EnabledWrite(pyrtl.Const(2 ** dw - 1, bitwidth=dw), we)
+    # ports whose enable is a constant: 0 (never writes) and 1 (always writes)
+    m3 = pyrtl.MemBlock(bitwidth=dw, addrwidth=aw, name='m3', asynchronous=True, max_write_ports=2)
+    m3[wa] <<= pyrtl.MemBlock.EnabledWrite(wd, pyrtl.Const(0, bitwidth=1))
+    m3[ca] <<= pyrtl.MemBlock.EnabledWrite(~wd, pyrtl.Const(1, bitwidth=1))
     _out(m[ra], 'out0')
     _out(m2[ra], 'out1')
+    _out(m3[ra], 'out2')
 
 
 @design
